@@ -4,7 +4,8 @@
    the committed-id look-up of service/txidmanager.go (HasRecent) and the cumulative balance check of
    service/transaction/transaction_v3.go (PreValidate with update = true).
 
-   A transaction is [n, from, to, value, limit, ts]: n makes it unique (the id is a hash over all fields);
+   A transaction is [n, from, to, value, limit, ts, size]: size is its length in units of the byte limit of a block
+   (small transfers: 1, transfers with a large message: more); n makes it unique (the id is a hash over all fields);
    from = to (a self-transfer) is allowed.
    One action per public call: Add (TransactionPool.Add), Commit (a block with some transactions is
    finalized: their ids reach the locator manager, RemoveList takes them out of the pool), Candidate
@@ -18,11 +19,14 @@ EXTENDS Integers, Sequences, FiniteSets, TLC
 CONSTANTS Accounts,   \* account names (strings); senders and receivers
           Values,     \* transfer values
           Limits,     \* step limits
+          Sizes,      \* sizes of a transaction in units of the byte limit (e.g. {1, 3})
           MaxTs,      \* transaction timestamps 1..MaxTs
           Th,         \* timestamp threshold of the chain
           Price,      \* step price
           MinStep,    \* minimum step limit (default step cost)
-          InitBal,    \* initial balance of every account
+          InitBal,    \* initial balance of the accounts in Rich
+          Rich,       \* accounts that start with InitBal; the others start with PoorBal and can only spend what they receive
+          PoorBal,
           MaxN,       \* transactions ever created
           MaxPool,    \* pool capacity
           MaxOps
@@ -38,7 +42,7 @@ Cost(tx) == tx.limit * Price + tx.value
 InWindow(ts, bt) == ts > bt - Th /\ ts <= bt + Th
 Range(s) == {s[i] : i \in 1..Len(s)}
 PoolTxs == {pool[i].tx : i \in 1..Len(pool)}
-Bal0 == [a \in Accounts |-> InitBal]
+Bal0 == [a \in Accounts |-> IF a \in Rich THEN InitBal ELSE PoorBal]
 
 \* ---------------------------------------------------------------- transactionList.Add: where the element goes
 \* transactions of one sender are kept in timestamp order; otherwise insertion order
@@ -49,22 +53,24 @@ Insert(s, i, e) == SubSeq(s, 1, i - 1) \o <<e>> \o SubSeq(s, i, Len(s))
 
 \* ---------------------------------------------------------------- TransactionPool.Candidate as a fold over the pool
 \* state of the loop: selected list, dropped positions, balances of the scratch world context
-\* maxCount = 0: the default limit (1500, never reached here); small: a byte limit below the size of any transaction --
-\* the loop stops in front of the first transaction it would select (what was dropped before it stays dropped)
-RECURSIVE Scan(_, _, _, _, _, _, _)
-Scan(i, sel, drop, bal, bt, maxCount, small) ==
-  IF i > Len(pool) \/ (maxCount > 0 /\ Len(sel) >= maxCount) THEN [sel |-> sel, drop |-> drop]
+\* maxCount = 0 / maxBytes = 0: the default limits (1500 transactions / 1 MB, never reached here).
+\* The loop runs while fewer than maxBytes units and fewer than maxCount transactions are selected; a transaction that passed
+\* every check but does not fit into the rest of the byte limit ENDS the loop (its PreValidate effect on the scratch balances
+\* is then irrelevant): what was dropped before it stays dropped.
+RECURSIVE Scan(_, _, _, _, _, _, _, _)
+Scan(i, sel, drop, bal, bt, maxCount, maxBytes, used) ==
+  IF i > Len(pool) \/ (maxCount > 0 /\ Len(sel) >= maxCount) \/ (maxBytes > 0 /\ used >= maxBytes) THEN [sel |-> sel, drop |-> drop]
   ELSE LET e == pool[i]  tx == e.tx IN
-       IF tx.ts <= bt - Th THEN Scan(i + 1, sel, drop \cup {i}, bal, bt, maxCount, small)            \* expired: dropped
-       ELSE IF tx.ts > bt + Th THEN Scan(i + 1, sel, drop, bal, bt, maxCount, small)                  \* future: skipped
-       ELSE IF tx \in committed THEN Scan(i + 1, sel, drop \cup {i}, bal, bt, maxCount, small)        \* already processed
-       ELSE IF tx.limit < MinStep THEN Scan(i + 1, sel, drop \cup {i}, bal, bt, maxCount, small)      \* NotEnoughStep
-       ELSE IF bal[tx.from] < Cost(tx)                                                           \* NotEnoughBalance:
-            THEN Scan(i + 1, sel, IF e.direct THEN drop ELSE drop \cup {i}, bal, bt, maxCount, small)  \* kept if user-submitted
+       IF tx.ts <= bt - Th THEN Scan(i + 1, sel, drop \cup {i}, bal, bt, maxCount, maxBytes, used)            \* expired: dropped
+       ELSE IF tx.ts > bt + Th THEN Scan(i + 1, sel, drop, bal, bt, maxCount, maxBytes, used)                  \* future: skipped
+       ELSE IF tx \in committed THEN Scan(i + 1, sel, drop \cup {i}, bal, bt, maxCount, maxBytes, used)        \* already processed
+       ELSE IF tx.limit < MinStep THEN Scan(i + 1, sel, drop \cup {i}, bal, bt, maxCount, maxBytes, used)      \* NotEnoughStep
+       ELSE IF bal[tx.from] < Cost(tx)                                                                           \* NotEnoughBalance:
+            THEN Scan(i + 1, sel, IF e.direct THEN drop ELSE drop \cup {i}, bal, bt, maxCount, maxBytes, used)  \* kept if user-submitted
+       ELSE IF maxBytes > 0 /\ used + tx.size > maxBytes THEN [sel |-> sel, drop |-> drop]                      \* does not fit: stop
        ELSE LET b1 == [bal EXCEPT ![tx.from] = @ - Cost(tx)]
                 b2 == [b1 EXCEPT ![tx.to] = @ + tx.value]
-            IN IF small THEN [sel |-> sel, drop |-> drop]
-               ELSE Scan(i + 1, Append(sel, tx), drop, b2, bt, maxCount, small)
+            IN Scan(i + 1, Append(sel, tx), drop, b2, bt, maxCount, maxBytes, used + tx.size)
 RECURSIVE KeepFrom(_, _)
 KeepFrom(i, drop) == IF i > Len(pool) THEN <<>>
                      ELSE (IF i \in drop THEN <<>> ELSE <<pool[i]>>) \o KeepFrom(i + 1, drop)
@@ -88,8 +94,8 @@ BlockValid(l, bt) == WhyInvalid(l, bt, committed) = "ok"
 
 \* ---------------------------------------------------------------- history
 Can == MaxOps = 0 \/ Len(hist) < MaxOps
-NoTx == [n |-> 0, from |-> "", to |-> "", value |-> 0, limit |-> 0, ts |-> 0]
-Rec(op) == [op |-> op, tx |-> NoTx, direct |-> FALSE, res |-> "", bt |-> 0, max |-> 0, small |-> FALSE, sel |-> <<>>, txs |-> {}]
+NoTx == [n |-> 0, from |-> "", to |-> "", value |-> 0, limit |-> 0, ts |-> 0, size |-> 0]
+Rec(op) == [op |-> op, tx |-> NoTx, direct |-> FALSE, res |-> "", bt |-> 0, max |-> 0, bytes |-> 0, sel |-> <<>>, txs |-> {}]
 PoolNs == [i \in 1..Len(pool') |-> pool'[i].tx.n]
 Log(r) == hist' = IF MaxOps = 0 THEN <<r>> ELSE Append(hist, r @@ [pool |-> PoolNs])
 
@@ -115,12 +121,12 @@ Commit(S) ==
   /\ Log([Rec("commit") EXCEPT !.txs = S])
 
 \* TransactionPool.Candidate for a block with timestamp bt
-Candidate(bt, maxCount, small) ==
+Candidate(bt, maxCount, maxBytes) ==
   /\ Can
-  /\ LET r == Scan(1, <<>>, {}, Bal0, bt, maxCount, small) IN
+  /\ LET r == Scan(1, <<>>, {}, Bal0, bt, maxCount, maxBytes, 0) IN
      /\ pool' = Keep(r.drop)
      /\ UNCHANGED <<made, known, committed>>
-     /\ Log([Rec("candidate") EXCEPT !.bt = bt, !.max = maxCount, !.small = small, !.sel = r.sel])
+     /\ Log([Rec("candidate") EXCEPT !.bt = bt, !.max = maxCount, !.bytes = maxBytes, !.sel = r.sel])
 
 \* TransactionPool.DropOldTXs(t) (TransactionManager.RemoveOldTxByBlockTS after a block is finalized): everything with a
 \* timestamp <= t leaves the pool
@@ -143,10 +149,12 @@ HasTx(tx) ==
   /\ UNCHANGED <<pool, made, known, committed>>
   /\ Log([Rec("hastx") EXCEPT !.tx = tx, !.res = IF tx \in PoolTxs THEN "true" ELSE "false"])
 
-TxSpace == [n : 1..MaxN, from : Accounts, to : Accounts, value : Values, limit : Limits, ts : 1..MaxTs]
+TxSpace == [n : 1..MaxN, from : Accounts, to : Accounts, value : Values, limit : Limits, ts : 1..MaxTs, size : Sizes]
+MaxSize == CHOOSE x \in Sizes : \A y \in Sizes : y <= x
+ByteLimits == 0..(MaxSize + 1)          \* 0 = default; 1 .. one unit more than the largest transaction
 Next == \/ \E tx \in TxSpace, d \in BOOLEAN : Add(tx, d)
         \/ \E S \in SUBSET known : Commit(S)
-        \/ \E bt \in 1..MaxTs, m \in 0..MaxPool, sm \in BOOLEAN : Candidate(bt, m, sm)
+        \/ \E bt \in 1..MaxTs, m \in 0..MaxPool, mb \in ByteLimits : Candidate(bt, m, mb)
         \/ \E t \in 0..MaxTs : DropOld(t)
         \/ \E bt \in 1..MaxTs : CheckTxs(bt)
         \/ \E tx \in TxSpace : HasTx(tx)
@@ -165,7 +173,11 @@ DropsJustified ==
           LET tx == pool[i].tx IN
           tx.ts <= Last.bt - Th \/ tx \in committed \/ tx.limit < MinStep \/ ~pool[i].direct]_vars
 \* CheckTxs answering "nothing to propose" is right: Candidate would select nothing for that block time
-NothingToPropose == \A bt \in 1..MaxTs : ~HasFresh(bt) => Scan(1, <<>>, {}, Bal0, bt, 0, FALSE).sel = <<>>
+NothingToPropose == \A bt \in 1..MaxTs : ~HasFresh(bt) => Scan(1, <<>>, {}, Bal0, bt, 0, 0, 0).sel = <<>>
+\* the byte limit is respected, except that ... no exception: the selected transactions fit into it
+FitsByteLimit == [][(Stepped /\ Last.op = "candidate" /\ Last.bytes > 0) =>
+                     LET RECURSIVE Sum(_) Sum(l) == IF l = <<>> THEN 0 ELSE Head(l).size + Sum(Tail(l))
+                     IN Sum(Last.sel) <= Last.bytes]_vars
 \* DropOldTXs removes exactly the transactions at or below the given time
 DropOldExact == [][(Stepped /\ Last.op = "dropold") =>
                     \A i \in 1..Len(pool) : (pool[i] \in Range(pool')) <=> (pool[i].tx.ts > Last.bt)]_vars
